@@ -643,6 +643,77 @@ def _inline_in_function(prog, fi, is_new, stats):
 
     gen_inline(fi.node.body)
 
+    # `return list(gen(args))` / `X = list(gen(args))` with a new generator helper that only yields (no return): the helper's
+    # body with an accumulator in place of the yields
+    def list_of_generator(stmts):
+        nonlocal done
+        i = 0
+        while i < len(stmts):
+            s = stmts[i]
+            v = s.value if isinstance(s, (ast.Return, ast.Assign)) else None
+            if isinstance(v, ast.Call) and isinstance(v.func, ast.Name) and v.func.id == "list" and len(v.args) == 1 and not v.keywords and isinstance(v.args[0], ast.Call) and (isinstance(s, ast.Return) or (len(s.targets) == 1 and isinstance(s.targets[0], ast.Name))):
+                call = v.args[0]
+                try:
+                    tg, how = prog.resolve_call(call, fi)
+                except Exception:
+                    tg, how = [], "unknown"
+                g = tg[0] if len(tg) == 1 and how not in ("class", "by-name-ambiguous", "unknown") else None
+                if g is not None and g is not fi and is_new(g) and g.module.kind in ("py", "pyx") and not g.node.args.vararg and not g.node.args.kwarg:
+                    body = _body_wo_doc(g.node)
+                    ys = [n for st in body for n in ast.walk(st) if isinstance(n, (ast.Yield, ast.YieldFrom))]
+                    plain = all(isinstance(getattr(y, "parent", None), ast.Expr) and isinstance(y, ast.Yield) and y.value is not None for y in ys)
+                    mapping = _bind_params(g, call, True)
+                    if ys and plain and mapping is not None and not _contains(body, (ast.Return, ast.Await, ast.Global, ast.Nonlocal, ast.FunctionDef, ast.AsyncFunctionDef, ast.ClassDef)) and all(_simple_arg(a) for a in mapping.values()):
+                        assigned = {n.id for st in body for n in ast.walk(st) if isinstance(n, ast.Name) and isinstance(n.ctx, (ast.Store, ast.Del))}
+                        if not (assigned & set(mapping)):
+                            acc = s.targets[0].id if isinstance(s, ast.Assign) else "collected_" + g.node.name.strip("_")
+                            ren = {}
+                            for x in sorted(assigned):
+                                if x in caller_names or x == acc:
+                                    k = x + "_" + g.node.name.strip("_")
+                                    while k in caller_names:
+                                        k += "_"
+                                    ren[x] = k
+                            new_body = _clone(body)
+                            holder = ast.Module(body=new_body, type_ignores=[])
+                            if ren:
+                                _Rename(ren).visit(holder)
+                            _Subst(mapping).visit(holder)
+
+                            class Y(ast.NodeTransformer):
+                                def visit_Expr(self, node):
+                                    if isinstance(node.value, ast.Yield):
+                                        new = ast.Expr(value=ast.Call(func=ast.Attribute(value=ast.Name(id=acc, ctx=ast.Load()), attr="append", ctx=ast.Load()), args=[node.value.value], keywords=[]))
+                                        return ast.copy_location(new, node)
+                                    return node
+
+                            Y().visit(holder)
+                            init = ast.Assign(targets=[ast.Name(id=acc, ctx=ast.Store())], value=ast.List(elts=[], ctx=ast.Load()), type_comment=None)
+                            repl = [init] + holder.body
+                            if isinstance(s, ast.Return):
+                                repl.append(ast.Return(value=ast.Name(id=acc, ctx=ast.Load())))
+                            for st in repl:
+                                ast.copy_location(st, s)
+                                ast.fix_missing_locations(st)
+                            stmts[i : i + 1] = repl
+                            stats.setdefault(fi.qual, []).append(g.qual)
+                            stats.setdefault("#inlined", set()).add(g.qual)
+                            done += 1
+                            i += len(repl)
+                            continue
+            for f in ("body", "orelse", "finalbody"):
+                sub = getattr(s, f, None)
+                if isinstance(sub, list) and sub and isinstance(sub[0], ast.stmt):
+                    list_of_generator(sub)
+            for h in getattr(s, "handlers", []) or []:
+                list_of_generator(h.body)
+            i += 1
+
+    set_parents(fi.node)
+    for g_ in {id(x): x for x in prog.functions.values() if is_new(x)}.values():
+        set_parents(g_.node)
+    list_of_generator(fi.node.body)
+
     # expression-level: helpers that are a single `return <expr>`
     class ExprInline(ast.NodeTransformer):
         def visit_FunctionDef(self, node):
@@ -1009,6 +1080,65 @@ def _unfold_update_generators(fi, ref_fingerprints, stats):
     return done
 
 
+def _merge_dataclass_replace(fi, ref_locals, stats):
+    """`T = Cls(a=.., b=..)` (T new, bound once, keyword arguments only, never mutated) followed by `dataclasses.replace(T,
+    c=.., a=..)` is `Cls(a=<the later value>, b=.., c=..)`; a plain `return T` returns `Cls(a=.., b=..)`.  Every use builds its
+    own object, which nothing can tell apart because T is never stored or changed."""
+    done = 0
+    fnode = fi.node
+    for n in list(walk_function(fnode)):
+        if not (isinstance(n, ast.Assign) and len(n.targets) == 1 and isinstance(n.targets[0], ast.Name)):
+            continue
+        T = n.targets[0].id
+        v = n.value
+        if T in ref_locals or not (isinstance(v, ast.Call) and not v.args and v.keywords and all(k.arg for k in v.keywords) and isinstance(v.func, (ast.Name, ast.Attribute))):
+            continue
+        if not all(_value_like(k.value) for k in v.keywords):
+            continue
+        stores = [x for x in ast.walk(fnode) if isinstance(x, ast.Name) and x.id == T and isinstance(x.ctx, (ast.Store, ast.Del))]
+        loads = [x for x in ast.walk(fnode) if isinstance(x, ast.Name) and x.id == T and isinstance(x.ctx, ast.Load)]
+        if len(stores) != 1 or not loads:
+            continue
+        uses = []
+        for x in loads:
+            p = getattr(x, "parent", None)
+            if isinstance(p, ast.Return) and p.value is x:
+                uses.append(("ret", p))
+            elif isinstance(p, ast.Call) and p.args and p.args[0] is x and len(p.args) == 1 and all(k.arg for k in p.keywords) and ((isinstance(p.func, ast.Attribute) and p.func.attr == "replace" and isinstance(p.func.value, ast.Name) and p.func.value.id == "dataclasses") or (isinstance(p.func, ast.Name) and p.func.id == "replace")):
+                uses.append(("replace", p))
+            else:
+                uses = None
+                break
+        if not uses or not any(k == "replace" for k, _ in uses):
+            continue
+        # the values are read where T was built: nothing they mention may be rebound between there and the use (single block check:
+        # every name in the values has exactly one binding in the function, or is a parameter / attribute of self)
+        bound = {}
+        for x in ast.walk(fnode):
+            if isinstance(x, ast.Name) and isinstance(x.ctx, (ast.Store, ast.Del)):
+                bound[x.id] = bound.get(x.id, 0) + 1
+        if any(bound.get(x.id, 0) > 1 for k in v.keywords for x in ast.walk(k.value) if isinstance(x, ast.Name)):
+            continue
+        for kind, p in uses:
+            if kind == "ret":
+                p.value = _clone(v)
+            else:
+                over = {k.arg: k.value for k in p.keywords}
+                kws = [ast.keyword(arg=k.arg, value=over.pop(k.arg) if k.arg in over else _clone(k.value)) for k in v.keywords]
+                kws += [ast.keyword(arg=a, value=val) for a, val in over.items()]
+                p.func = _clone(v.func)
+                p.args = []
+                p.keywords = kws
+            ast.fix_missing_locations(p)
+        blk, _p = _block_of(n)
+        if blk is not None:
+            blk.remove(n)
+        done += 1
+    if done:
+        stats.setdefault("#dataclass_replace", []).append("%s:%d" % (fi.qual, done))
+    return done
+
+
 def _enumerate_counter_loops(fi, ref_fingerprints, stats):
     """A new `for c, T in enumerate(IT, start=c + 1): BODY` (BODY does not bind c) keeps a running count in c across loops: it
     is `for T in IT: c += 1; BODY` (c is untouched if IT is empty, and holds the number of elements seen afterwards)."""
@@ -1318,6 +1448,21 @@ class _NewIdioms(ast.NodeTransformer):
 
     def __init__(self):
         self.n = 0
+
+    def visit_Expr(self, node):
+        # X.__delitem__(k) -> del X[k] ; X.__setitem__(k, v) -> X[k] = v  (statement position, result unused)
+        self.generic_visit(node)
+        c = node.value
+        if isinstance(c, ast.Call) and isinstance(c.func, ast.Attribute) and not c.keywords and not any(isinstance(a, ast.Starred) for a in c.args):
+            if c.func.attr == "__delitem__" and len(c.args) == 1:
+                self.n += 1
+                new = ast.Delete(targets=[ast.Subscript(value=c.func.value, slice=c.args[0], ctx=ast.Del())])
+                return ast.fix_missing_locations(ast.copy_location(new, node))
+            if c.func.attr == "__setitem__" and len(c.args) == 2:
+                self.n += 1
+                new = ast.Assign(targets=[ast.Subscript(value=c.func.value, slice=c.args[0], ctx=ast.Store())], value=c.args[1], type_comment=None)
+                return ast.fix_missing_locations(ast.copy_location(new, node))
+        return node
 
     def visit_Call(self, node):
         self.generic_visit(node)
@@ -3373,6 +3518,8 @@ def normalise(prog, ref):
                 if _enumerate_counter_loops(fi, ref_fps, stats):
                     set_parents(fi.node)
                 if _unfold_update_generators(fi, ref_fps, stats):
+                    set_parents(fi.node)
+                if _merge_dataclass_replace(fi, ref_locals, stats):
                     set_parents(fi.node)
                 for _round in range(3):
                     k = _propagate_temps(fi, ref_locals, stats)
